@@ -23,6 +23,61 @@ prop("C02", "nitrocheck",
                 "Exploration, not proof: thousands of shrunk-on-failure histories per run.",
      level_note="Trusts the reference model in harness/nitrocheck/world.go and rapid's generators; single goroutine (concurrency is C03).")
 
+SEQ_NOTE = ("Trusts the reference model in harness/nitrocheck/world.go (epoch model: versions, visibility, collection frontier) and rapid's generators; "
+            "collection is awaited after every retiring Close so that the physical state is a function of the history.")
+
+prop("C01", "nitrocheck",
+     [dict(name="TestC01", quick=700, thorough=6000, steps=50),
+      dict(name="TestC01Readers", quick=250, thorough=1500, steps=30)],
+     rule="rapid state machine over Put/Delete/DeleteNode/NewSnapshot/Open/Close(any order)/GC/await and delete->snapshot->re-insert chains with up to 8 snapshots "
+          "held, both comparators and memory modes; after EVERY step every open snapshot is scanned and compared (bytes, order, once each, Count) with the content "
+          "frozen in the model at its creation. TestC01Readers adds 1-4 reader goroutines that keep scanning (refresh rate 0/1/3) and visiting snapshots they hold "
+          "while the main goroutine mutates, creates/closes other snapshots and forces collection. Non-trivial case: a history in which a non-empty snapshot was "
+          "scanned after a key it contains was deleted in a later epoch, or re-inserted later, or another (older or newer) snapshot was retired after its creation, "
+          "or a collection pass removed a version since its creation. Distinct = distinct hash of the rendered history (+ reader assignment).",
+     technique="model-based stateful property testing (frozen snapshot copies as oracle), plus concurrent reader goroutines",
+     design_ref="DESIGN.md §3 C01",
+     level_text="Generated histories with many simultaneously open snapshots, each compared in full after every step against an immutable model copy; "
+                "concurrent readers sample the Go scheduler (reader/unlink interleavings are owned deterministically under C04/C15).",
+     level_note=SEQ_NOTE)
+
+prop("C09", "nitrocheck",
+     [dict(name="TestC09", quick=700, thorough=5000, steps=60)],
+     rule="rapid state machine: version histories (single and bulk puts/deletes, snapshot churn, GC) interleaved with an iterator program on a drawn open snapshot "
+          "(SeekFirst, Seek to present/absent/just-after/below-min/above-max keys, Next x1-4, explicit Refresh, SetRefreshRate 0-5, re-Seek); oracle = index into the "
+          "snapshot's frozen sorted content (Valid iff idx<len, Get == content[idx]) after every step. Non-trivial: a refresh opportunity (explicit or automatic) while "
+          "positioned on a key that has a physically present version invisible to the snapshot, or a seek to an absent key between two keys with invisible versions. "
+          "Distinct = distinct hash of the rendered history.",
+     technique="model-based stateful property testing (position index into sorted visible list)",
+     design_ref="DESIGN.md §3 C09",
+     level_text="Generated iterator programs against an index oracle, under generated version histories that keep invisible older/newer versions physically present.",
+     level_note=SEQ_NOTE)
+
+prop("C10", "nitrocheck",
+     [dict(name="TestC10", quick=350, thorough=3000, steps=40)],
+     rule="rapid state machine: histories with bulk puts/deletes (0-300 items, multi-version, older snapshots held open) and Visitor(snapshot, shards 1-40 or > item count, "
+          "concurrency 1-8) with a callback error injected at a drawn (shard,index) in a quarter of the visits; oracle: concatenation of the per-shard callback sequences in "
+          "shard order == the snapshot's frozen content; injected error => that error is returned; returns within a 20 s watchdog. Non-trivial: >=2 non-empty shards while "
+          "versions invisible to the visited snapshot are physically present (they become pivots), or shards > item count, or an error injected in a non-first shard. "
+          "Distinct = distinct hash of the rendered history.",
+     technique="model-based stateful property testing (shard concatenation vs frozen content, error injection)",
+     design_ref="DESIGN.md §3 C10",
+     level_text="Generated snapshots/shard counts/concurrency/error placements against the frozen content; termination observed through a generous watchdog.",
+     level_note=SEQ_NOTE + " Shard ids >= the requested shard count are tolerated (the statement does not bound them).")
+
+prop("C05", "nitrocheck",
+     [dict(name="TestC05", quick=250, thorough=2500, steps=30)],
+     rule="rapid state machine: histories (single/bulk puts and deletes, snapshot churn, GC; drawn comparator, memory mode, delta interleaving, 1-3 writers) with up to 3 "
+          "backup cycles each: StoreToDisk of a drawn open snapshot (latest or older; store concurrency 1-8; DiskBlockSize 512K/64/16; optionally a pre-drawn mutation script "
+          "of puts/deletes/snapshots/closes/GC executed from inside the ItemCallback after the k-th item), LoadFromDisk into a fresh instance (load concurrency 1/2/4/8/17, "
+          "writers created before or after), then: items reported by the restore, scan, Count, ItemsCount and node_count equal the stored snapshot's frozen content; "
+          "0-25 further model-checked operations and a snapshot on the restored instance. Non-trivial: stored snapshot non-empty and (another physical version of one of its "
+          "keys existed at store time, or >=1 item was restored through delta files, or it was not the latest state). Distinct = distinct hash of the rendered history.",
+     technique="model-based stateful property testing with store/load round trip and callback-driven concurrent mutation",
+     design_ref="DESIGN.md §3 C05",
+     level_text="Round-trip oracle on generated databases and configurations, including mutation and collection during the backup (deterministic hand-over from the item callback).",
+     level_note=SEQ_NOTE + " Backups go to tmpfs scratch directories; free-running concurrent mutation during backup is sampled only through the callback hand-over.")
+
 NOT_APPLICABLE = {}
 
 ENGINES = [
